@@ -3,28 +3,32 @@ import OW.Kernels.Lag
 /-!
 C11 under ROUNDED arithmetic — "StorageRouting never returns negative outflow or storage", for every rounding `R : Rounding`.
 
-Every exit of `calcOutflow` reports an outflow that is `0`, `max(0, newStorage − S(q)) ⊘ Δt` or `max(0, …)`, so with `Δt ≥ 0` the
+Every exit of `calcOutflow` reports an outflow that is `0`, `max(0, newStorage − S(q)) ⊘ Δt` or `max(0, …)`, so with `Δt > 0` the
 outflow is non-negative whatever the solver did and however its arithmetic rounded (no assumption on the routing parameters, the
 root finder, or the inputs). The reported storage is `max(…, 0)` on the zero-outflow and full-drain exits and the index storage
 `S(q)` on the others; `S(q) ≥ 0` is a fact about the parameters, proved here for the zero-bias set-up (`|bias| < 0.001`, `k ≥ 0`,
 dead storage ≥ 0), where `S(q) = k ⊗ q^m ⊖ 0 ⊕ dead`.
 
+All theorems REQUIRE `Δt > 0`: the division of `RNum` is total (`x ⊘ 0 = 0`, as in `ℝ`), so at `Δt = 0` the statements would hold through
+that convention, whereas the Go code computes `max(0, …)/0 = +Inf` or `0/0 = NaN` (and then panics "outflow is nan"); the helper lemmas
+of OW/Proofs/RoundedRouting.lean take `0 ≤ Δt` for that reason only and are used here at `0 < Δt`.
+
 Not restated (exact-arithmetic only): the water balance of each step, `S = k·Q^m + dead` to the solver tolerance, Muskingum's
 weights summing to one (the ℝ theorems claim no sign for Muskingum). `Lag` does no arithmetic: OW/Props/C11.lean proves its
-theorems (`lag_core_spec` …) for the generic list model, they hold verbatim for `RNum R` (and for `Float`).
+theorems (`lag_spec_outflow` …) for the generic list model, they hold verbatim for `RNum R` (and for `Float`).
 -/
 namespace OW.Props.Rounded.C11
 open OW OW.Kernels OW.Kernels.StorageRouting OW.Rounded OW.Rounded.Routing
 
 variable {R : Rounding}
 
-/-- **calcOutflow under rounding**: on every exit path the outflow is non-negative (only `Δt ≥ 0` is needed), and the storage is
+/-- **calcOutflow under rounding**: on every exit path the outflow is non-negative (only `Δt > 0` is needed — a real divisor), and the storage is
 non-negative provided the index storage `S(q)` is (parallels `OW.Props.C11.calcOutflow_nonneg`). -/
 theorem calcOutflow_nonneg (inflow lateral bias prevQi po prevStorage ner area dead dur rp rc ql kl ko : RNum R)
-    (r : CO (RNum R)) (hd : 0 ≤ dur.val)
+    (r : CO (RNum R)) (hd : 0 < dur.val)
     (h : calcOutflow inflow lateral bias prevQi po prevStorage ner area dead dur rp rc ql kl ko = .ok r) :
     Good (mkCtx inflow lateral bias prevStorage ner area dead dur rp rc ql kl ko) r := by
-  have hcd : 0 ≤ (mkCtx inflow lateral bias prevStorage ner area dead dur rp rc ql kl ko).duration.val := hd
+  have hcd : 0 ≤ (mkCtx inflow lateral bias prevStorage ner area dead dur rp rc ql kl ko).duration.val := le_of_lt hd
   unfold calcOutflow at h
   simp only [runRouting_ok, RNum.isNaN_eq, Bool.or_self, Bool.false_eq_true, if_false] at h
   split_ifs at h
@@ -36,10 +40,10 @@ theorem calcOutflow_nonneg (inflow lateral bias prevQi po prevStorage ner area d
     exact ⟨by rw [RNum.sci_zero_val], fun _ => newStorage_nonneg _⟩
   · exact solve_good _ _ _ _ r hcd h
 
-/-- **StorageRouting never returns a negative outflow, under every rounding**: for every parameter set with `Δt ≥ 0`, every
+/-- **StorageRouting never returns a negative outflow, under every rounding**: for every parameter set with `Δt > 0`, every
 initial storage and every input series (any sign), every outflow of every run is non-negative; a step after a panic reports zeros.
 (Parallels the outflow half of `OW.Props.C11.calcOutflow_nonneg` / `run_balance`.) -/
-theorem run_outflow_nonneg (bias k x area dead dt s : RNum R) (hdt : 0 ≤ dt.val) (xs : List (RNum R × RNum R × RNum R × RNum R)) :
+theorem run_outflow_nonneg (bias k x area dead dt s : RNum R) (hdt : 0 < dt.val) (xs : List (RNum R × RNum R × RNum R × RNum R)) :
     ∀ o ∈ (StorageRouting.run bias k x area dead dt s xs).2, 0 ≤ o.outflow.val := by
   unfold StorageRouting.run
   have h := scan_inv (StorageRouting.step (setup bias k x dt) k area dead dt) (fun _ => True) (fun _ => True)
@@ -59,9 +63,9 @@ theorem run_outflow_nonneg (bias k x area dead dt s : RNum R) (hdt : 0 ≤ dt.va
   exact fun o ho => forall₂_right (P := fun o => 0 ≤ o.outflow.val) (fun _ _ h => h) h.2 o ho
 
 /-- **StorageRouting with zero inflow bias never returns a negative storage, under every rounding**: `|bias| < 0.001`, `k ≥ 0`,
-dead storage ≥ 0, `Δt ≥ 0` ⇒ every reported storage of every run is non-negative (any inputs, any initial storage). -/
+dead storage ≥ 0, `Δt > 0` ⇒ every reported storage of every run is non-negative (any inputs, any initial storage). -/
 theorem run_storage_nonneg_zero_bias (bias k x area dead dt s : RNum R) (hb : Num.abs bias < (0.001 : RNum R))
-    (hk : 0 ≤ k.val) (hdead : 0 ≤ dead.val) (hdt : 0 ≤ dt.val) (xs : List (RNum R × RNum R × RNum R × RNum R)) :
+    (hk : 0 ≤ k.val) (hdead : 0 ≤ dead.val) (hdt : 0 < dt.val) (xs : List (RNum R × RNum R × RNum R × RNum R)) :
     ∀ o ∈ (StorageRouting.run bias k x area dead dt s xs).2, 0 ≤ o.storage.val := by
   unfold StorageRouting.run
   rw [setup_zero_bias bias k x dt hb]
@@ -85,13 +89,13 @@ theorem run_storage_nonneg_zero_bias (bias k x area dead dt s : RNum R) (hb : Nu
 /-! ### non-vacuity -/
 
 /-- the theorems speak about real runs: over the exact rounding a one-step run has exactly one output, and it is covered -/
-example (bias k x area dead dt s : RNum Rounding.exact) (hdt : 0 ≤ dt.val) (i : RNum Rounding.exact × RNum Rounding.exact × RNum Rounding.exact × RNum Rounding.exact) :
+example (bias k x area dead dt s : RNum Rounding.exact) (hdt : 0 < dt.val) (i : RNum Rounding.exact × RNum Rounding.exact × RNum Rounding.exact × RNum Rounding.exact) :
     ∃ o, (StorageRouting.run bias k x area dead dt s [i]).2 = [o] ∧ 0 ≤ o.outflow.val := by
   refine ⟨_, rfl, run_outflow_nonneg bias k x area dead dt s hdt [i] _ ?_⟩
   simp [StorageRouting.run, scan]
 
 /-- the zero-bias hypothesis `|bias| < 0.001` is satisfiable (bias = 0, exact rounding) and the storage theorem then applies -/
-example (k x area dead dt s : RNum Rounding.exact) (hk : 0 ≤ k.val) (hdead : 0 ≤ dead.val) (hdt : 0 ≤ dt.val)
+example (k x area dead dt s : RNum Rounding.exact) (hk : 0 ≤ k.val) (hdead : 0 ≤ dead.val) (hdt : 0 < dt.val)
     (i : RNum Rounding.exact × RNum Rounding.exact × RNum Rounding.exact × RNum Rounding.exact) :
     ∀ o ∈ (StorageRouting.run (RNum.ofRep 0 Rounding.exact.rep_zero) k x area dead dt s [i]).2, 0 ≤ o.storage.val :=
   run_storage_nonneg_zero_bias _ k x area dead dt s (by
